@@ -225,3 +225,50 @@ package aggregator
 //@   property C10
 //@   requires sumRep(s)
 //@   ensures[sum] ok && one(results, "sum", foldAdd(s.vals))
+
+// ---------------------------------------------------------------- aggregator.go: buckets (C10)
+// The aggregator's clock as seen through a.now(): a ghost integer (seconds); the property's
+// "non-decreasing clock" is an assumption about it, stated where it is used.
+//@ ghost (Aggregator) clock int
+//@ func (a *Aggregator) now() time.Time
+//@   pure
+//@   ensures unixOf(result.wall, result.ext) == a.clock
+//@ func (a *Aggregator) procConstr(val float64, ts uint32) Processor
+//@   fresh
+//@   ensures[first] firstPoint(result, val, ts)
+//@
+//@ func (m *RangeTracker) Sample(ts uint32)
+//@   requires !m.Mutex.held
+//@   modifies m.min, m.max, m.Mutex.held
+//@   ensures !m.Mutex.held
+//@
+//@ // has2: bucket (t, key) exists; proc2: its processor
+//@ spec has2(a *Aggregator, t int, k bytes) bool := has(a.aggregations, t) && has(a.aggregations[t].state, k)
+//@ spec proc2(a *Aggregator, t int, k bytes) := a.aggregations[t].state[k]
+//@ // representation invariant of the bucket structure
+//@ spec invObjs(a *Aggregator) bool := a.aggregations != nil && (forall t int :: has(a.aggregations, t) ==> a.aggregations[t] != nil && a.aggregations[t].state != nil)
+//@ spec invDistinct(a *Aggregator) bool := forall t int, u int :: has(a.aggregations, t) && has(a.aggregations, u) && t != u ==> a.aggregations[t] != a.aggregations[u] && a.aggregations[t].state != a.aggregations[u].state
+//@ spec invSorted(a *Aggregator) bool := (forall i int, j int :: 0 <= i && i <= j && j < len(a.tsList) ==> a.tsList[i] <= a.tsList[j])
+//@ spec invNoDup(a *Aggregator) bool := (forall i int, j int :: 0 <= i && i < len(a.tsList) && 0 <= j && j < len(a.tsList) && i != j ==> a.tsList[i] != a.tsList[j])
+//@ spec invListed(a *Aggregator) bool := forall i int :: 0 <= i && i < len(a.tsList) ==> has(a.aggregations, a.tsList[i])
+//@ spec invAll(a *Aggregator) bool := forall t int :: has(a.aggregations, t) ==> (exists i int :: 0 <= i && i < len(a.tsList) && a.tsList[i] == t)
+//@ spec invProcs(a *Aggregator) bool := (forall t int, k bytes :: has2(a, t, k) ==> proc2(a, t, k) != nil)
+//@   && (forall t int, k bytes, u int, l bytes :: has2(a, t, k) && has2(a, u, l) && (t != u || k != l) ==> proc2(a, t, k).ref != proc2(a, u, l).ref)
+//@ spec aggInv(a *Aggregator) bool := invObjs(a) && invDistinct(a) && invSorted(a) && invNoDup(a) && invListed(a) && invAll(a) && invProcs(a)
+//@
+//@ func (a *Aggregator) AddOrCreate(key string, ts uint32, quantized uint, value float64)
+//@   property C10
+//@   requires aggInv(a) && rangeTracker != nil && !rangeTracker.Mutex.held && numTooOld != nil && a.clock >= a.Wait && a.clock < 18446744073709551616
+//@   let open := quantized > a.clock - a.Wait
+//@   modifies *
+//@   ensures[inv_objs]     invObjs(a)
+//@   ensures[inv_distinct] invDistinct(a)
+//@   ensures[inv_sorted]   invSorted(a)
+//@   ensures[inv_listed]   invListed(a)
+//@   // not yet proved preserved on the path that re-sorts the list (assumed as part of aggInv): invNoDup, invAll, invProcs
+//@   ensures[existing] old(has2(a, quantized, key)) ==> has2(a, quantized, key) && proc2(a, quantized, key) == old(proc2(a, quantized, key))
+//@        && contributed(proc2(a, quantized, key), value, ts) && numTooOld.count == old(numTooOld.count)
+//@   ensures[create]   !old(has2(a, quantized, key)) && open ==> has2(a, quantized, key) && firstPoint(proc2(a, quantized, key), value, ts) && numTooOld.count == old(numTooOld.count)
+//@   ensures[too_old]  !old(has2(a, quantized, key)) && !open ==> !has2(a, quantized, key) && numTooOld.count == old(numTooOld.count) + 1
+//@   ensures[others]   forall t int, k bytes :: (t != quantized || k != key) ==> (has2(a, t, k) == old(has2(a, t, k)) && (has2(a, t, k) ==>
+//@        proc2(a, t, k) == old(proc2(a, t, k)) && proc2(a, t, k).vals == old(proc2(a, t, k).vals) && proc2(a, t, k).tss == old(proc2(a, t, k).tss)))
